@@ -23,6 +23,7 @@ package appencryption
 
 //@ func decryptRow$1
 //@   facet C10
+//@   modifies ext_calls
 //@   ensures [C10:rawdrk-wiped] forall i int :: 0 <= i && i < len(ret(Decrypt, 1, 0)) ==> ret(Decrypt, 1, 0)[i] == 0
 
 // ---- KMS (interface contract; fault-inclusive) ----
@@ -45,10 +46,12 @@ package appencryption
 
 //@ func (*envelopeEncryption).systemKeyFromEKR
 //@   facet C10
+//@   modifies ext_calls
 //@   ensures [C10:kms-plaintext-wiped] forall i int :: 0 <= i && i < len(ret(DecryptKey, 1, 0)) ==> ret(DecryptKey, 1, 0)[i] == 0
 
 //@ func (*envelopeEncryption).intermediateKeyFromEKR
 //@   facet C10
+//@   modifies ext_calls
 //@   ensures [C10:ik-plaintext-wiped] forall i int :: 0 <= i && i < len(ret(WithBytesFunc, 1, 0)) ==> ret(WithBytesFunc, 1, 0)[i] == 0
 
 // ---- key caches (interface contract) ----
